@@ -529,7 +529,9 @@ func TestCredentialHistories(t *testing.T) {
 		}
 		canAuth := func() bool { return active && len(dbsWith(lvR)) > 0 && len(creds) <= 8 }
 		ops := []wop{
-			{"login", 3, canAuth},
+			// (with the multi-login finding excluded, a third concurrent login adds nothing:
+			// administrative changes are left out while two are open)
+			{"login", 3, func() bool { return canAuth() && !(excluded(kMultiLg) && logins >= 2) }},
 			{"openSession", 3, canAuth},
 			{"useDatabase", 3, func() bool { return has(func(c *hcred) bool { return c.kind == "session" }) }},
 			{"newTx", 3, func() bool { return has(func(c *hcred) bool { return c.kind == "session" && c.txID == "" }) }},
@@ -543,6 +545,7 @@ func TestCredentialHistories(t *testing.T) {
 			{"read", 3, func() bool { return len(creds) > 0 }},
 			{"closeSession", 1, func() bool { return has(func(c *hcred) bool { return c.kind == "session" && !c.ended }) }},
 			{"logout", 1, func() bool { return has(func(c *hcred) bool { return c.kind == "token" && !c.ended }) }},
+			{"logout", 3, func() bool { return logins >= 2 && has(func(c *hcred) bool { return c.kind == "token" && !c.ended }) }},
 			{"grant", 2, func() bool { return active }},
 			{"revoke", 1, func() bool { return active }},
 			{"deactivate", 1, func() bool { return active }},
